@@ -109,6 +109,9 @@ def sort_by_order(
     from apischema.objects.fields import get_field_name
 
     order_overriding = get_order_overriding(cls)
+    # after/before targets which are not part of the sorted elements (e.g. a serialized
+    # method when sorting deserialization fields, or a skipped field) are ignored
+    names = {name(elt) for elt in elts}
     groups: Dict[int, List[T]] = defaultdict(list)
     after: Dict[str, List[T]] = defaultdict(list)
     before: Dict[str, List[T]] = defaultdict(list)
@@ -119,9 +122,11 @@ def sort_by_order(
         elif ordering.order is not None:
             groups[ordering.order].append(elt)
         elif ordering.after is not None:
-            after[get_field_name(ordering.after, methods=True)].append(elt)
+            target = get_field_name(ordering.after, methods=True)
+            (after[target] if target in names else groups[0]).append(elt)
         elif ordering.before is not None:
-            before[get_field_name(ordering.before, methods=True)].append(elt)
+            target = get_field_name(ordering.before, methods=True)
+            (before[target] if target in names else groups[0]).append(elt)
         else:
             raise NotImplementedError
     if not after and not before and len(groups) == 1:
